@@ -558,7 +558,7 @@ func (i SmallInt) CompareFloat(other Float) Value {
 	if other.IsNaN() {
 		return Nil
 	}
-	return SmallInt(i.ToFloat().Cmp(other)).ToValue()
+	return SmallInt(CmpInt64Float64(int64(i), float64(other))).ToValue()
 }
 
 func (i SmallInt) CompareSmallInt(other SmallInt) SmallInt {
@@ -620,7 +620,7 @@ func (i SmallInt) GreaterThanSmallInt(other SmallInt) bool {
 }
 
 func (i SmallInt) GreaterThanFloat(other Float) bool {
-	return Float(i) > other
+	return !other.IsNaN() && CmpInt64Float64(int64(i), float64(other)) > 0
 }
 
 func (i SmallInt) GreaterThanBigInt(other *BigInt) bool {
@@ -679,7 +679,7 @@ func (i SmallInt) GreaterThanEqualSmallInt(other SmallInt) bool {
 }
 
 func (i SmallInt) GreaterThanEqualFloat(other Float) bool {
-	return Float(i) >= other
+	return !other.IsNaN() && CmpInt64Float64(int64(i), float64(other)) >= 0
 }
 
 func (i SmallInt) GreaterThanEqualBigInt(other *BigInt) bool {
@@ -738,7 +738,7 @@ func (i SmallInt) LessThanSmallInt(other SmallInt) bool {
 }
 
 func (i SmallInt) LessThanFloat(other Float) bool {
-	return Float(i) < other
+	return !other.IsNaN() && CmpInt64Float64(int64(i), float64(other)) < 0
 }
 
 func (i SmallInt) LessThanBigInt(other *BigInt) bool {
@@ -797,7 +797,7 @@ func (i SmallInt) LessThanEqualSmallInt(other SmallInt) bool {
 }
 
 func (i SmallInt) LessThanEqualFloat(other Float) bool {
-	return Float(i) <= other
+	return !other.IsNaN() && CmpInt64Float64(int64(i), float64(other)) <= 0
 }
 
 func (i SmallInt) LessThanEqualBigInt(other *BigInt) bool {
